@@ -3,6 +3,8 @@
 package main
 
 import (
+	"time"
+
 	"github.com/tinode/chat/server/auth"
 	"github.com/tinode/chat/server/store/types"
 )
@@ -227,5 +229,48 @@ func Harness_C10_p2p_handshake_converges() {
 	if aEnabled && aOnline && bOnline {
 		verifAssert(a.perSubs[b.name].online, "A-learns-that-B-is-online")
 	}
+	verifReach("end")
+}
+
+// ---- (4) settling after an idle unload: B comes online while A's 'me' topic is loaded without a foreground
+// session and (possibly) without B in its contact table (contacts are loaded lazily / B is a new subscription);
+// A may then come online; finally A's sessions are gone and A's 'me' topic times out through the real
+// handleTopicTimeout. At quiescence B must have last been told "off" about A.
+func Harness_C10_p2p_settles_after_unload() {
+	verifNewStore()
+	hub := verifInitGlobals()
+	ua, ub := types.Uid(1), types.Uid(2)
+	a, b := verifMeTopic(ua), verifMeTopic(ub)
+	bEnabled := verifNondetBool("bSeesA")
+	b.perSubs[a.name] = perSubsData{online: false, enabled: bEnabled}
+	if verifNondetBool("aKnowsB") {
+		a.perSubs[b.name] = perSubsData{online: false, enabled: verifNondetBool("aSeesB")}
+	}
+	sa := verifNewSession("sid-a", ua, auth.LevelAuth, 32)
+	sb := verifNewSession("sid-b", ub, auth.LevelAuth, 32)
+	// event 1: B comes online
+	b.sessions[sb] = perSessionData{uid: ub}
+	b.presUsersOfInterest("on", "ua-b")
+	verifAssert(verifRoute(hub, a, b), "handshake-settles")
+	// event 2 (optional): A gets a foreground session and announces it
+	if verifNondetBool("aComesOnline") {
+		a.sessions[sa] = perSessionData{uid: ua}
+		a.presUsersOfInterest("on", "ua-a")
+		verifAssert(verifRoute(hub, a, b), "handshake-settles")
+		if bEnabled {
+			verifAssert(b.perSubs[a.name].online, "partner-told-online-while-A-has-foreground-session")
+		}
+		delete(a.sessions, sa)
+	}
+	// event 3: A is idle, its 'me' topic is unloaded
+	a.handleTopicTimeout(hub, "ua-a", time.NewTimer(time.Hour), time.NewTimer(time.Hour))
+	verifAssert(verifRoute(hub, a, b), "handshake-settles")
+	verifAssert(!b.perSubs[a.name].online, "partner-told-offline-after-A-unloaded")
+	unregs := 0
+	for len(hub.unreg) > 0 {
+		<-hub.unreg
+		unregs++
+	}
+	verifAssert(unregs == 1, "unloaded-topic-unregistered-once")
 	verifReach("end")
 }
